@@ -179,6 +179,9 @@ class Program:
         return ".".join(base + ([target] if target else []))
 
     def _link(self):
+        # restore the reviewed decomposition into functions (new helpers are inlined back into their callers)
+        from . import inline as _inline
+        self.normalisation_notes = _inline.normalise(self.modules)
         for mod in self.modules.values():
             for st in mod.tree.body:
                 self._scan_toplevel(mod, st)
